@@ -160,16 +160,18 @@ Lemma saturate_fragment_specM size off len :
   (saturate_fragmentM M) size off len = N.min len (size * 8 - N.min (size * 8) off).
 Proof. intros H. unfold saturate_fragmentM. rewrite wM_small by exact H. rewrite !choose_min_spec. reflexivity. Qed.
 
-Theorem set_uxx_exactM little buf size off value len :
-  size <= blen buf -> 8 * blen buf < M -> off + len < M ->
+Theorem set_uxx_exact_allM little buf size off value len :
+  size <= blen buf -> 8 * blen buf < M ->
   (size * 8 < off + len -> (set_uxxM M) little buf size off value len = Some (inr TooSmall)) /\
   (off + len <= size * 8 ->
    exists r, (set_uxxM M) little buf size off value len = Some (inl r) /\ written buf r off (N.min len 64) (w64 value)).
 Proof.
-  intros Hsz H64 Hno. unfold set_uxxM. rewrite (wM_small (size * 8)), (wM_small (off + len)) by lia.
+  intros Hsz H64. unfold set_uxxM. rewrite (wM_small (size * 8)) by lia.
   split; intros H.
-  - apply N.ltb_lt in H. rewrite H. reflexivity.
-  - replace (size * 8 <? off + len) with false by (symmetry; apply N.ltb_ge; lia).
+  - destruct (N.ltb_spec (size * 8) off); cbn [orb]; [reflexivity|].
+    replace (size * 8 - off <? len) with true by (symmetry; apply N.ltb_lt; lia). reflexivity.
+  - replace (size * 8 <? off) with false by (symmetry; apply N.ltb_ge; lia).
+    replace (size * 8 - off <? len) with false by (symmetry; apply N.ltb_ge; lia). cbn [orb].
     rewrite choose_min_spec.
     assert (X : (if little then mem_le 8 (w64 value) else tmp_any (w64 value)) = le_bytes 8 (w64 value))
       by (destruct little; [apply mem_le_le|apply tmp_any_le]).
@@ -186,6 +188,13 @@ Proof.
         replace (0 + (p - off) <? 8 * N.of_nat 8) with true by (symmetry; apply N.ltb_lt; lia).
         cbn [andb]. rewrite N.add_0_l. reflexivity.
 Qed.
+
+Theorem set_uxx_exactM little buf size off value len :
+  size <= blen buf -> 8 * blen buf < M -> off + len < M ->
+  (size * 8 < off + len -> (set_uxxM M) little buf size off value len = Some (inr TooSmall)) /\
+  (off + len <= size * 8 ->
+   exists r, (set_uxxM M) little buf size off value len = Some (inl r) /\ written buf r off (N.min len 64) (w64 value)).
+Proof. intros Hsz H64 _. apply set_uxx_exact_allM; assumption. Qed.
 
 Theorem set_bit_exactM buf size off value :
   size <= blen buf -> 8 * blen buf < M ->
@@ -358,30 +367,16 @@ Proof.
   repeat split.   (* the two texts are convertible: wM two64 x and w64 x are both x mod two64 *)
 Qed.
 
-(* ---------------------------------------------------------------------------------------------
-   The capacity check of nunavutSetUxx is NOT wrap-free: when off_bits + len_bits reaches 2^W the sum wraps, the check
-   passes and the copy leaves the buffer (None = out-of-range access), although buf_pre holds and the buffer is too small.
-   Witness for both widths: a 2-byte buffer, offset 2^W - 8, 16 bits. *)
+(* (the refutation of the wrapping capacity check that nunavutSetUxx had before /repo ba46e0a is in History/C14_history.v) *)
 Definition buf_preM (M : N) (buf : bytes) (size off : N) : bool :=
   (size <=? blen buf) && (8 * blen buf <? M) && (off <? M) && bytes_okb buf.
 
-Theorem set_uxx_offset_wrap_refuted :
-  (exists buf size off value len,
-     buf_pre buf size off = true /\ size * 8 < off + len /\ set_uxx false buf size off value len = None /\
-     set_uxx true buf size off value len = None) /\
-  (exists buf size off value len,
-     buf_preM (2 ^ 32) buf size off = true /\ size * 8 < off + len /\ set_uxxM (2 ^ 32) false buf size off value len = None).
-Proof.
-  split.
-  - exists [0; 0], 2, (two64 - 8), 255, 16. vm_compute. repeat split.
-  - exists [0; 0], 2, (2 ^ 32 - 8), 255, 16. vm_compute. repeat split.
-Qed.
 
 Section SizeT2.
 Variable M : N.
 Hypothesis HM : 65536 <= M.
 
-(* the domain on which the shipped check is right, stated once: off_bits + len_bits < 2^W *)
+(* statement kept from the time of the wrapping check (the premise off + len < M is no longer needed) *)
 Theorem set_uxx_exact_bM little buf size off value len :
   buf_preM M buf size off = true -> (off + len <? M) = true ->
   if size * 8 <? off + len
@@ -397,7 +392,7 @@ Proof.
   destruct (Hc H2) as (r & Hr & Hlen & _ & Hbits). exists r. auto.
 Qed.
 
-(* the saturating check (design_notes/C14_wrap_fix.patch) needs no such domain: EVERY offset and length *)
+(* the capacity check is wrap-free: correct for EVERY offset and length (set_uxx_satM = set_uxxM, name kept for Codec/PrimsCur.v) *)
 Theorem set_uxx_sat_exactM little buf size off value len :
   buf_preM M buf size off = true ->
   if size * 8 <? off + len
@@ -406,18 +401,11 @@ Theorem set_uxx_sat_exactM little buf size off value len :
          forall p, bit r p = if (off <=? p) && (p <? off + N.min len 64)
                              then N.testbit (value mod 2 ^ 64) (p - off) else bit buf p.
 Proof.
-  intros Hb. pose proof Hb as Hb'. unfold buf_preM in Hb. repeat (apply andb_prop in Hb; destruct Hb as [Hb ?]).
-  apply N.leb_le in Hb. apply N.ltb_lt in H1, H0.
-  unfold set_uxx_satM. rewrite (wM_small M (size * 8)) by lia.
-  destruct (N.ltb_spec (size * 8) (off + len)) as [Hs|Hs].
-  - destruct (N.ltb_spec (size * 8) off); cbn [orb]; [reflexivity|].
-    replace (size * 8 - off <? len) with true by (symmetry; apply N.ltb_lt; lia). reflexivity.
-  - replace (size * 8 <? off) with false by (symmetry; apply N.ltb_ge; lia).
-    replace (size * 8 - off <? len) with false by (symmetry; apply N.ltb_ge; lia). cbn [orb].
-    pose proof (set_uxx_exact_bM little buf size off value len Hb' ltac:(apply N.ltb_lt; lia)) as X.
-    replace (size * 8 <? off + len) with false in X by (symmetry; apply N.ltb_ge; lia).
-    unfold set_uxxM in X. rewrite (wM_small M (size * 8)), (wM_small M (off + len)) in X by lia.
-    replace (size * 8 <? off + len) with false in X by (symmetry; apply N.ltb_ge; lia). exact X.
+  intros Hb. unfold buf_preM in Hb. repeat (apply andb_prop in Hb; destruct Hb as [Hb ?]).
+  apply N.leb_le in Hb. apply N.ltb_lt in H1, H0. unfold set_uxx_satM.
+  destruct (set_uxx_exact_allM M HM little buf size off value len Hb H1) as [Ha Hc].
+  destruct (N.ltb_spec (size * 8) (off + len)); [apply Ha; assumption|].
+  destruct (Hc H2) as (r & Hr & Hlen & _ & Hbits). exists r. auto.
 Qed.
 
 Theorem copy_bits_exact_bM dst doff len src soff :
